@@ -291,6 +291,9 @@ def binop(ctx, op, a, b, inplace=False):
         if isinstance(op, ast.Mult):
             raise Unsupported("symbolic string repetition")
         ctx.raise_exc("TypeError", ("unsupported operand types (str)",))
+    if ka == "bool" and kb == "bool" and isinstance(op, (ast.BitOr, ast.BitAnd, ast.BitXor)):
+        ta, tb = term(a), term(b)
+        return mk({ast.BitOr: z3.Or, ast.BitAnd: z3.And, ast.BitXor: z3.Xor}[type(op)](ta, tb), "bool")
     nk = num_kind(a, b)
     ta, tb = term(a, nk), term(b, nk)
     if isinstance(op, ast.Add):
